@@ -34,6 +34,7 @@ static void h_join(int argc, char **argv)
     mc_name(&shared_var, sizeof shared_var, "harness.shared_var");
     /* second argument f: the full constructor with an explicit priority, a stack size and a name */
     if (argc > 1 && argv[1][0] == 'f') t = p_uthread_create_full(join_body, NULL, TRUE, P_UTHREAD_PRIORITY_HIGH, 262144, "a-named-worker-thread");
+    else if (argc > 1 && argv[1][0] == 'j') t = p_uthread_create(join_body, NULL, (pboolean)atoi(argv[1] + 1), NULL);       /* j<value>: a joinable flag that is true without being TRUE (4, -1) */
     else t = p_uthread_create(join_body, NULL, TRUE, NULL);
     if (!t) mc_fail("C05", "create-failed", "p_uthread_create returned NULL");
     rc = p_uthread_join(t);
